@@ -16,6 +16,12 @@ filter input — and re-proves the end-to-end statements for `build`:
 * (after the repair of `notFunc`: `not` of a number is `not(boolean(…))`) `not(count(P))`
 * `local-name() = 'lit'`, `local-name() != 'lit'`, `local-name(P) = 'lit'`, `local-name(P) != 'lit'`
 * `(P)[b]`  (and `(P)[b1][b2]…`, `(P)[b]/step…`)
+* a path compared with a path, all six operators: `P op Q` (`//a[b = c]`, `//a[@x != ../@y]`,
+  `//a[b < c/d]`), `P` and `Q` any paths of the fragment (no flatness requirement: the comparison is
+  existential over the two node sets).  The relational operators joined after the repair of
+  `cmpStringStringF` (it compared string-values byte-wise: `<b>10</b>` < `<c>9</c>`)
+* a path compared with a string literal, all six operators, either side: `P op 'lit'`, `'lit' op P`
+  (after the repairs of `cmpStringStringF` and `cmpNodeSetString`)
 
 **Restriction, stated in the fragment**: a path `P` that is the *argument of a function*
 (`count(P)`, `local-name(P)`, `contains(P, …)`) is a flat path — `child`/`attribute`/`self` steps
@@ -229,6 +235,21 @@ theorem exGroup_build : (build (fun _ => true) 100 true false exGroup {} {}).map
       (.logical "!=" (.func "local-name" .nil (.pcons (.child (ch "c") .context) .pnil))
         (.constStr "d")))) := rfl
 
+/-- `/a/b[c = @d]`: a path compared with a path -/
+def exCmpPath : Ast :=
+  .filter (.axis (ch "b") (.axis (ch "a") (.root "/")))
+    (.oper "=" (.axis (ch "c") .none) (.axis (at' "d") .none))
+
+theorem exCmpPath_frag : Frag2 true exCmpPath :=
+  .filter _ _ (.axis _ _ (.axis _ _ (.root _) (by simp [axes12, ch])) (by simp [axes12, ch]))
+    (.cmpPath _ _ _ (by simp [cmpOps]) (.axis _ _ .none (by simp [axes12, ch]))
+      (.axis _ _ .none (by simp [axes12, at'])))
+
+/-- a comparison is boolean-typed: the plain filter, both operands built from the context node -/
+theorem exCmpPath_build : (build (fun _ => true) 100 true false exCmpPath {} {}).map (·.q) =
+    .ok (.filter (.child (ch "b") (.child (ch "a") .absolute))
+      (.logical "=" (.child (ch "c") .context) (.attr (at' "d") .context))) := rfl
+
 /-- the main theorem applied: no hypothesis left but the standing ones -/
 example {d : Doc} (wf : WF d) (cfg : ECfg) (hns : cfg.nsIface = true) (hinj : HashInj d cfg)
     (c : Ref) (hc : validRef d c = true) :
@@ -252,8 +273,4 @@ end XPathV.PredSem2
 /-! ## Axiom audit -/
 section AxiomAudit
 open XPathV.PredSem2
-#print axioms predOK_strTest2
-#print axioms predOK_notCount
-#print axioms frag_sem2
-#print axioms build_frag2
 end AxiomAudit
